@@ -265,7 +265,106 @@ fn case_json(c: &Case, modes: &[usize]) -> J {
     json!({"rules": c.rules, "data": c.data, "spec": c.spec, "modes": modes})
 }
 
+// ------------------------------------------------------------------------------------------------
+// results do not depend on what was evaluated earlier in the process: a batch invocation
+// (several rule files x several data files) reports, per pair, what the pair reports on its own
+
+fn batch_check(rules: &[String], docs: &[String], evals: &mut u64) -> Result<Option<usize>, (String, String)> {
+    let d = fresh_dir("c05b");
+    let rps: Vec<String> = rules.iter().enumerate().map(|(i, t)| { let p = d.join(format!("rules/r{}.guard", i)); write_file(&p, t); p.to_string_lossy().to_string() }).collect();
+    let dps: Vec<String> = docs.iter().enumerate().map(|(i, t)| { let p = d.join(format!("data/d{}.json", i)); write_file(&p, t); p.to_string_lossy().to_string() }).collect();
+    let o = VOpts::structured(Fmt::Json);
+    let entries = |r: &Run| -> Option<Vec<String>> {
+        serde_json::from_str::<J>(&r.out).ok().and_then(|j| j.as_array().map(|a| a.iter().map(|e| e.to_string()).collect()))
+    };
+    let mut singles: Vec<String> = vec![];
+    let mut worst = 0;
+    for rp in &rps {
+        for dp in &dps {
+            *evals += 1;
+            let r = validate_files(&[rp.clone()], &[dp.clone()], &[], &o, "");
+            if let Some(p) = &r.panic {
+                return Err((format!("panic {}", p), format!("panic:{}", p.split(' ').next().unwrap_or(""))));
+            }
+            match (&r.code, entries(&r)) {
+                (Ok(c), Some(e)) => {
+                    worst = worst.max(*c);
+                    singles.extend(e);
+                }
+                // an error in one pair aborts a batch: outside this comparison
+                _ => return Ok(None),
+            }
+        }
+    }
+    *evals += 1;
+    let b = validate_files(&rps, &dps, &[], &o, "");
+    if let Some(p) = &b.panic {
+        return Err((format!("panic {}", p), format!("panic:{}", p.split(' ').next().unwrap_or(""))));
+    }
+    let be = match (&b.code, entries(&b)) {
+        (Ok(c), Some(e)) => {
+            if *c != worst {
+                return Err((format!("batch invocation exits {} but the pairs on their own exit at worst {}", c, worst), "c05:batch:exit".into()));
+            }
+            e
+        }
+        _ => return Err((format!("every pair evaluates on its own but the batch invocation fails: {}", b.brief()), "c05:batch:error".into())),
+    };
+    let mut a = singles.clone();
+    let mut bb = be.clone();
+    a.sort();
+    bb.sort();
+    if a != bb {
+        let only_b: Vec<&String> = bb.iter().filter(|x| !a.contains(x)).collect();
+        let only_a: Vec<&String> = a.iter().filter(|x| !bb.contains(x)).collect();
+        return Err((
+            format!("batch invocation ({} rule files x {} data files) reports {} which no pair reports on its own; on their own the pairs report {}", rules.len(), docs.len(),
+                only_b.first().map(|s| s.chars().take(400).collect::<String>()).unwrap_or_default(), only_a.first().map(|s| s.chars().take(400).collect::<String>()).unwrap_or_default()),
+            "c05:batch:differs-from-single".into(),
+        ));
+    }
+    Ok(Some(be.len()))
+}
+
+fn batch_case(u: &mut Choices, sz: Size) -> CaseResult {
+    let doc = gen_cfn_doc(u, &sz);
+    // one rule file: --structured merges the rules of all rule files into one report per data
+    // file (judged by C09), so pairs are only comparable per rule file
+    let nr = 1;
+    let rules: Vec<String> = (0..nr).map(|_| print_file(&gen_wide_file(u, &doc, sz, false))).collect();
+    let nd = u.range(2, 3);
+    let mut docs = vec![doc.to_json()];
+    for _ in 1..nd {
+        docs.push(super::c02::vary_doc(u, &doc, &sz).to_json());
+    }
+    let rot = u.below(nd);
+    docs.rotate_left(rot);
+    let mut evals = 0;
+    match batch_check(&rules, &docs, &mut evals) {
+        Ok(Some(n)) => {
+            let distinct = docs.iter().collect::<std::collections::BTreeSet<_>>().len();
+            CaseResult::Pass(Info {
+                nontrivial: distinct >= 2,
+                key: hash_case(&[&rules.join("\n--\n"), &docs.join("\n")]),
+                classes: vec![format!("batch:rule-files:{}", nr), format!("batch:data-files:{}", nd), format!("batch:entries:{}", n)],
+                evals,
+                sample: Some(json!({"rules": rules, "docs": docs})),
+            })
+        }
+        Ok(None) => CaseResult::Discard("a pair does not evaluate"),
+        Err((msg, sig)) => CaseResult::Fail(Failure { msg, sig, case: json!({"kind": "batch", "rules": rules, "docs": docs}) }),
+    }
+}
+
 pub fn replay(case: &J) -> CaseResult {
+    if case["kind"] == "batch" {
+        let strs = |k: &str| -> Vec<String> { case[k].as_array().map(|a| a.iter().filter_map(|x| x.as_str().map(String::from)).collect()).unwrap_or_default() };
+        let mut ev = 0;
+        return match batch_check(&strs("rules"), &strs("docs"), &mut ev) {
+            Ok(_) => CaseResult::Pass(Info::default()),
+            Err((msg, sig)) => CaseResult::Fail(Failure { msg, sig, case: case.clone() }),
+        };
+    }
     let c = Case { rules: case["rules"].as_str().unwrap_or("").to_string(), data: case["data"].as_str().unwrap_or("").to_string(), spec: case["spec"].as_str().unwrap_or("").to_string() };
     let modes: Vec<usize> = case["modes"].as_array().map(|a| a.iter().map(|m| m.as_u64().unwrap_or(0) as usize).collect()).unwrap_or_else(|| (0..MODES.len()).collect());
     let mut ev = 0;
@@ -304,7 +403,7 @@ fn random_case(u: &mut Choices, sz: Size) -> CaseResult {
 
 pub fn run(tier: Tier, seed: u64) -> i32 {
     let spec = EvidenceSpec {
-        rule: "Random wide programs (>=3 rules incl. one failing type block per resource type with three failing clauses, unique messages) on CloudFormation-shaped templates with >=3 resources, plus a two-case test spec. Every case is run 5 times as a fresh process of the real cfn-guard binary in each of 16 modes (validate: console -S all, -o json, -o yaml, --structured json/yaml/junit/sarif, -v, -p; test: console, json, yaml, junit; parse-tree -p / -y; rulegen) with HOME, TZ, LANG, the working directory and an extra variable changed between runs: equal exit status; structured outputs byte-identical (JUnit after masking time=\"..\"); console / plain-text outputs identical as multisets of lines; -p output split into the console part (multiset) and the JSON record (bytes). Additionally 5 in-process evaluations (run_checks verbose / non-verbose, validate --payload --structured sarif) interleaved with another case must be byte-identical. Non-trivial: >=3 rules and >=8 modes with multi-line output; distinct by hash of rules and data.".into(),
+        rule: "Random wide programs (>=3 rules incl. one failing type block per resource type with three failing clauses, unique messages) on CloudFormation-shaped templates with >=3 resources, plus a two-case test spec. Every case is run 5 times as a fresh process of the real cfn-guard binary in each of 16 modes (validate: console -S all, -o json, -o yaml, --structured json/yaml/junit/sarif, -v, -p; test: console, json, yaml, junit; parse-tree -p / -y; rulegen) with HOME, TZ, LANG, the working directory and an extra variable changed between runs: equal exit status; structured outputs byte-identical (JUnit after masking time=\"..\"); console / plain-text outputs identical as multisets of lines; -p output split into the console part (multiset) and the JSON record (bytes). Additionally 5 in-process evaluations (run_checks verbose / non-verbose, validate --payload --structured sarif) interleaved with another case must be byte-identical. Stage 'batch' (in process): a generated rule file x 2-3 documents (variants of one another) given to ONE validate --structured -o json invocation must report, as a multiset of file reports and in its exit code, exactly what the (rule file, document) pairs report when each is evaluated by an invocation of its own. Non-trivial (processes): >=3 rules and >=8 modes with multi-line output; distinct by hash of rules and data.".into(),
         assumptions: vec![
             "colour-control variables (NO_COLOR) are held fixed: a documented feature of the colored crate".into(),
             "five runs miss an order leak over n>=3 entries with probability <= (1/6)^4 per case".into(),
@@ -314,5 +413,7 @@ pub fn run(tier: Tier, seed: u64) -> i32 {
         let sz = tier.pick(Size::quick(), Size::thorough());
         run.shrink_iters.store(40, std::sync::atomic::Ordering::Relaxed);
         run.run_random("processes", tier.pick(48, 1200), 2500, |u| random_case(u, sz));
+        run.shrink_iters.store(1500, std::sync::atomic::Ordering::Relaxed);
+        run.run_random("batch", tier.pick(8_000, 200_000), tier.pick(2000, 3200), |u| batch_case(u, sz));
     })
 }
